@@ -445,6 +445,52 @@ def run_rules(rep, repo):
         rep.check(R7c, h, not uncond, f'{len(stores)} guarded store(s) into the traversed slot', f'`{d}`, called for a table header, overwrites whatever is at the header path unconditionally: '
                   f'`[a.b]` followed by `[a]` loses `a.b`, while parsing the same text keeps it', facts.loc(hb))
 
+    # ---- R7d: the run-time helpers evaluated on model trees
+    R7d = rep.rule('C19/R7d', 'the run-time helpers build what the parser builds: table_toml, push_toml and insert_toml evaluated on model trees — a `[a]` header keeps what a `[a.b]` header '
+                   'already put under `a` and makes an empty table where nothing is; a `[[a]]` header appends an empty table to the array at `a`, keeping the earlier elements, and makes a '
+                   'one-element array where nothing is; `key = value` under the context stores the value at the end of the path', floor=5)
+    from .den import Evaluator, Unanalysable, EvalPanic, VecObj
+    from .places import PlaceInterp, MapObj, SlotRef, plain, keyname, deref
+    Vt = 'toml::value::Value::'
+    tmap = lambda pairs: ('ctor', Vt + 'Table', (('struct', 'toml::map::Map', {'map': MapObj(pairs, sorted_='preserve_order' not in set(facts.crates.get('toml', {}).get('features', [])))}),))
+
+    def tree(v):
+        v = deref(v)
+        if isinstance(v, tuple) and len(v) == 3 and v[0] == 'ctor' and v[1] == Vt + 'Table':
+            return {keyname(k): tree(x) for k, x in deref(v[2][0])[2]['map'].pairs}
+        if isinstance(v, tuple) and len(v) == 3 and v[0] == 'ctor' and v[1] == Vt + 'Array':
+            xs = deref(v[2][0])
+            return [tree(x) for x in (xs.items if isinstance(xs, VecObj) else xs)]
+        if isinstance(v, tuple) and len(v) == 3 and v[0] == 'ctor':
+            return plain(v[2][0])
+        return plain(v)
+    one = ('ctor', Vt + 'Integer', (1,))
+    cases = (('table_toml', 'a table a sub-table header created', lambda: tmap([('a', tmap([('b', tmap([('x', one)]))]))]), ('a',), None, {'a': {'b': {'x': 1}}}),
+             ('table_toml', 'nothing', lambda: tmap([]), ('a',), None, {'a': {}}),
+             ('table_toml', 'nothing (two levels)', lambda: tmap([]), ('a', 'b'), None, {'a': {'b': {}}}),
+             ('push_toml', 'nothing', lambda: tmap([]), ('a',), None, {'a': [{}]}),
+             ('push_toml', 'an array with one element', lambda: tmap([('a', ('ctor', Vt + 'Array', (VecObj([tmap([('x', one)])]),)))]), ('a',), None, {'a': [{'x': 1}, {}]}),
+             ('push_toml', 'a nested array below the last element', lambda: tmap([('a', ('ctor', Vt + 'Array', (VecObj([tmap([]), tmap([('x', one)])]),)))]), ('a', 'b'), None, {'a': [{}, {'x': 1, 'b': [{}]}]}),
+             ('insert_toml', 'a value under a header context', lambda: tmap([('a', tmap([('x', one)]))]), ('a', 'k'), ('ctor', Vt + 'Integer', (2,)), {'a': {'x': 1, 'k': 2}}))
+    for h, what, mk, path, value, want in cases:
+        d = 'toml::macros::' + h
+        if not facts.has_body(d):
+            rep.incomplete(R7d, f'{h}|{what}', f'helper `{d}` not found')
+            continue
+        hb = facts.body(d)
+        cell = [mk()]
+        root = SlotRef(lambda: cell[0], lambda v: cell.__setitem__(0, v), 'root')
+        try:
+            PlaceInterp(Evaluator(facts)).apply_fn(hb, [root, tuple(path)] + ([value] if value is not None else []))
+            got = tree(cell[0])
+        except EvalPanic as ex:
+            rep.bad(R7d, f'{h}|{what}', f'`{h}` over {what} at `{".".join(path)}` panics: {ex}', facts.loc(hb))
+            continue
+        except (Unanalysable, TypeError, KeyError, IndexError, AttributeError) as ex:
+            rep.incomplete(R7d, f'{h}|{what}', f'cannot evaluate `{h}` over {what}: {type(ex).__name__}: {ex}', facts.loc(hb))
+            continue
+        rep.check(R7d, f'{h}|{what}', got == want, f'{got}', f'`{h}` at `{".".join(path)}` over {what} leaves {got}; parsing the same text gives {want}', facts.loc(hb))
+
     # ---- R8: a rule that re-dispatches `key = <rewritten value>` re-emits the key exactly as matched
     R8 = rep.rule('C19/R8', 'key conservation: every rule that matches `key = ..` and continues the muncher with a rewritten value re-emits the key tokens '
                   'exactly as it matched them (same fragments, same `-` / `.` separators at the same nesting), so dotted and hyphenated keys keep their shape', floor=20)
